@@ -50,6 +50,6 @@ inductive Prog (σ : Type) where
   | call (t : σ)                           -- return t(s, c)
   | failChar (wher expected : String)      -- return s.japiErrorUnexpectedChar(wher, expected)
   | failBasic (msg : String)               -- return s.japiErrorBasic(msg)
-  deriving Repr, Inhabited
+  deriving Repr, Inhabited, DecidableEq
 
 end JsightVerif.Model
